@@ -10,6 +10,7 @@ import (
 	"runtime/debug"
 	"sort"
 	"strings"
+	"time"
 
 	"github.com/fatih/color"
 	"github.com/gontainer/gontainer/internal/cmd"
@@ -17,8 +18,19 @@ import (
 
 // DriverInit pins the process-global knobs of the tool's dependencies.
 func DriverInit() {
-	color.NoColor = true // computed from the harness's own stdout otherwise
+	color.NoColor = true                             // computed from the harness's own stdout otherwise
+	if v := os.Getenv("XV_TOOL_WATCHDOG"); v != "" { // seconds; only used to try the hang path quickly
+		if d, err := time.ParseDuration(v + "s"); err == nil {
+			ToolWatchdog = d
+		}
+	}
 }
+
+// ToolWatchdog bounds one in-process run of the command (typical runs take 1-10 ms).
+var ToolWatchdog = 120 * time.Second
+
+// HangHook is called when a run exceeds ToolWatchdog (the worker installs one that exits the process).
+var HangHook func()
 
 // Run is the observation of one in-process execution of `gontainer build`.
 type Run struct {
@@ -44,7 +56,41 @@ func Tool(version, buildInfo string, args ...string) (r Run) {
 	c.SetArgs(args)
 	c.SetOut(&buf)
 	c.SetErr(&buf)
-	err := c.Execute()
+	// the command runs under its own watchdog: a run that does not return is a hang of the tool (the worker
+	// process announces the case and exits; the parent confirms it three times in isolation). Slow harness
+	// work around the run is not subject to this limit.
+	type outcome struct {
+		err error
+		pv  any
+		st  []byte
+	}
+	done := make(chan outcome, 1)
+	go func() {
+		var o outcome
+		defer func() {
+			if p := recover(); p != nil {
+				o.pv, o.st = p, debug.Stack()
+			}
+			done <- o
+		}()
+		o.err = c.Execute()
+	}()
+	var o outcome
+	select {
+	case o = <-done:
+	case <-time.After(ToolWatchdog):
+		if HangHook != nil {
+			HangHook()
+		}
+		o = <-done
+	}
+	if o.pv != nil {
+		r.Exit = 2
+		r.Panic = fmt.Sprintf("%v\n%s", o.pv, o.st)
+		r.Out = buf.String()
+		return r
+	}
+	err := o.err
 	r.Out = buf.String()
 	if err != nil {
 		r.Exit = 1
